@@ -1,13 +1,14 @@
 (* C04 — honest issue-hold-present-verify flows always verify.
-   Property theorems only; every proof is `exact <lemma>`. PARTIAL: see C04_statement. *)
+   Property theorems only; every proof is `exact <lemma>`. PARTIAL for the legacy format only: see C04_statement. *)
 From Coq Require Import List String ZArith NArith Bool.
-From AV Require Import Model.VTypes Model.CL Model.VerifierLegacy Model.VCfg Model.Prover Model.PProps Proofs.C04Proofs Proofs.C04F10 Proofs.C04G6 Proofs.C06S1 Proofs.C06S4 Proofs.C06S5 Proofs.C04R1 Proofs.C04R2 Model.VProps Model.VerifierW3C Proofs.VW3CC1 Proofs.VW3CC2 Proofs.VW3CC3 Proofs.VW3CC4 Proofs.VW3CC5 Model.CL.
+From AV Require Import Model.VTypes Model.CL Model.VerifierLegacy Model.VCfg Model.Prover Model.PProps Proofs.C04Proofs Proofs.C04F10 Proofs.C04G6 Proofs.C06S1 Proofs.C06S4 Proofs.C06S5 Proofs.C04R1 Proofs.C04R2 Model.VProps Model.VerifierW3C Proofs.VW3CC1 Proofs.VW3CC2 Proofs.VW3CC3 Proofs.VW3CC4 Proofs.VW3CC5 Model.CL Proofs.C04F4 Proofs.VW3CC2 Proofs.C04W1 Proofs.C04W4c Proofs.C04W6 Proofs.C04W7 Proofs.C04W8.
 Import ListNotations.
 
 (* the full statement, for both formats (composition of the prover and verifier models over every
-   honest case). NOT proved as a whole: the legacy format is proved end to end for the classes of
-   C04_legacy_plain, C04_legacy_rev and C04_legacy_restricted below; verifier-side override maps and the W3C format are decided per
-   case by the correspondence run on every check (their CL layer is C04_sub_proof_verifies_partial). *)
+   honest case). Its W3C half is PROVED (C04_w3c_statement below, up to two side conditions on the case that the library's
+   own types guarantee). Its legacy half is proved end to end for the classes of C04_legacy_plain, C04_legacy_rev and
+   C04_legacy_restricted below; legacy cases outside them (verifier-side override maps, the link from the selection-level
+   honesty predicate to the restriction hypothesis) are decided per case by the correspondence run on every check. *)
 Definition C04_statement : Prop := c04_statement.
 
 (* END TO END, legacy format, for EVERY case of the class [plain_b] (any number of correctly issued
@@ -172,6 +173,63 @@ Theorem C04_w3c_stages_nonvacuous :
   exists P, create_w3c pcfg_fixed s_req s_cx 7 (pc_sel s_case) = ROk P /\ w3c_stages cfg_fixed s_req P s_cx.
 Proof. exact w3c_stages_nonvacuous. Qed.
 
+(* END TO END, W3C FORMAT, for EVERY case of the class [w3c_rev_r] (any number of correctly issued credentials of revocable or
+   non-revocable definitions held under the holder's link secret; non-revocation intervals on the request, its attributes
+   and its predicates; timestamps and non-revocation states as rev_ok_w3c demands: a status list the verifier holds for
+   the named timestamp, inside every interval that applies - lower bounds overridden -, the witness valid for it; single
+   attributes and attribute groups, revealed or not, under any case / spacing of their names; predicates; unused
+   credentials passed along; numbers in the subject within the 32-bit range), under the hypothesis that every restriction
+   of the request is true (restriction_true: the evaluator of C06 on the entry's identifiers and shown values) of the entry
+   the prover builds for the referent it sits on: whatever presentation the prover model builds, the verifier model
+   accepts it. The derived subjects show exactly what the sub-proofs reveal (markers for predicates); the credential
+   searches find, in their strict pass, an entry for every referent, and settle only on entries that carry the
+   non-revocation part they call for; every sub-proof registers with the registry value of its timestamp; the ideal CL
+   check (with the non-revocation parts) passes. *)
+Theorem C04_w3c_rev : forall c P, w3c_rev_r c = true ->
+  (forall p subj sp r b ai, In p (nonempty (pc_sel c)) -> In (r, b) (pr_attrs p) -> assoc r (rq_attrs (pc_req c)) = Some ai -> build_subject pcfg_fixed (pc_req c) p = ROk subj ->
+     restriction_true cfg_fixed (pc_cx c) (entry_of p subj sp) (ident_of p) (ai_restr ai)) ->
+  (forall p subj sp r pi, In p (nonempty (pc_sel c)) -> In r (pr_preds p) -> assoc r (rq_preds (pc_req c)) = Some pi -> build_subject pcfg_fixed (pc_req c) p = ROk subj ->
+     restriction_true cfg_fixed (pc_cx c) (entry_of p subj sp) (ident_of p) (pi_restr pi)) ->
+  create_w3c pcfg_fixed (pc_req c) (pc_cx c) (pc_link c) (pc_sel c) = ROk P -> verify_w3c cfg_fixed (pc_req c) P (pc_cx c) = Accept.
+Proof. exact c04_w3c_rev_c. Qed.
+(* ... in particular for the decidable class [w3c_rev_b] = w3c_rev_r without restrictions *)
+Theorem C04_w3c_rev_unrestricted : forall c P, w3c_rev_b c = true ->
+  create_w3c pcfg_fixed (pc_req c) (pc_cx c) (pc_link c) (pc_sel c) = ROk P -> verify_w3c cfg_fixed (pc_req c) P (pc_cx c) = Accept.
+Proof. exact c04_w3c_rev_b. Qed.
+(* inhabitants: (1) no revocation - two credentials (one passed along unused as well), revealed and unrevealed single
+   attributes and groups under other spellings of their names, two predicates on one attribute; (2) a revocable credential
+   under a request-wide interval and an interval on its predicate, next to a non-revocable one: the request-data stage
+   names entry 0 twice as having to carry a non-revocation part, and it does; (3) restrictions ($and / $or / $not, on a
+   revealed attribute, a group and a predicate) met by the entries built *)
+Theorem C04_w3c_plain_nonvacuous :
+  w3c_rev_b w_case = true /\
+  exists P, create_w3c pcfg_fixed w_req z_cx 7 w_sel = ROk P /\ List.length (wp_creds P) = 2%nat /\ verify_w3c cfg_fixed w_req P z_cx = Accept.
+Proof. exact c04_w3c_plain_nonvacuous. Qed.
+Theorem C04_w3c_rev_nonvacuous :
+  w3c_rev_b r_case = true /\
+  exists P cs, create_w3c pcfg_fixed r_req s_cx 7 r_sel = ROk P /\
+    mapR (fun c => bind (of_opt (wc_pv c)) (fun pv => ROk (c, pv))) (wp_creds P) = ROk cs /\
+    check_request_data cfg_fixed r_req s_cx cs = ROk [0; 0]%Z /\
+    verify_w3c cfg_fixed r_req P s_cx = Accept.
+Proof. exact c04_w3c_rev_nonvacuous. Qed.
+(* THE W3C HALF OF THE FULL STATEMENT: every honest W3C case (honest_w3c, the decidable predicate C04_statement is stated
+   with: correctly issued credentials of this holder, a selection covering the request with credentials that hold what they
+   serve, restrictions met, revocation data valid for a status list the verifier holds inside every interval that applies)
+   whose credential subjects are plain (text and 32-bit numbers - what the library's own type admits) and whose context
+   lists well-formed status lists: whatever the prover model builds, the verifier model accepts *)
+Theorem C04_w3c_statement : forall c, honest_w3c cfg_fixed pcfg_fixed c = true -> subjects_plain c = true -> is_ok (build_regmap (pc_cx c)) = true ->
+  forall o, flow_w3c cfg_fixed pcfg_fixed c = Some o -> o = Accept.
+Proof. exact c04_w3c_honest. Qed.
+Theorem C04_w3c_statement_nonvacuous :
+  honest_w3c cfg_fixed pcfg_fixed r_case = true /\ subjects_plain r_case = true /\ is_ok (build_regmap (pc_cx r_case)) = true /\
+  flow_w3c cfg_fixed pcfg_fixed r_case = Some Accept /\
+  honest_w3c cfg_fixed pcfg_fixed (mk_case w_req_r z_cx 7 w_sel []) = true /\ flow_w3c cfg_fixed pcfg_fixed (mk_case w_req_r z_cx 7 w_sel []) = Some Accept.
+Proof. exact c04_w3c_honest_nonvacuous. Qed.
+Theorem C04_w3c_restricted_nonvacuous :
+  w3c_rev_b (mk_case w_req_r z_cx 7 w_sel []) = false /\
+  exists P, create_w3c pcfg_fixed w_req_r z_cx 7 w_sel = ROk P /\ verify_w3c cfg_fixed w_req_r P z_cx = Accept.
+Proof. exact c04_w3c_restricted_nonvacuous. Qed.
+
 Print Assumptions C04_legacy_plain.
 Print Assumptions C04_plain_nonvacuous.
 Print Assumptions C04_legacy_rev.
@@ -190,3 +248,10 @@ Print Assumptions C04_w3c_request_data_nonvacuous.
 Print Assumptions C04_w3c_accept_iff_stages.
 Print Assumptions C04_w3c_accepts_served.
 Print Assumptions C04_w3c_stages_nonvacuous.
+Print Assumptions C04_w3c_rev.
+Print Assumptions C04_w3c_rev_unrestricted.
+Print Assumptions C04_w3c_plain_nonvacuous.
+Print Assumptions C04_w3c_rev_nonvacuous.
+Print Assumptions C04_w3c_restricted_nonvacuous.
+Print Assumptions C04_w3c_statement.
+Print Assumptions C04_w3c_statement_nonvacuous.
